@@ -6,7 +6,7 @@
    the oracle of tools/props/c16.py and by the model correspondence (see design/dim.md): they are
    stated below as C16_calls_agree_full : Prop and NOT proved. *)
 From Coq Require Import String List ZArith QArith Qcanon Bool.
-From NV Require Import Dim.Model Dim.Infer Dim.Sem Dim.Proofs Dim.LcmProofs.
+From NV Require Import Dim.Model Dim.Infer Dim.Sem Dim.Proofs Dim.LcmProofs Dim.Dexpr Dim.DexprProofs.
 Import ListNotations.
 Open Scope string_scope.
 
@@ -39,6 +39,21 @@ Theorem C16_lcm_factor :
   forall es : list Qc, qc (lcm_denoms es) <> Qc0.
 Proof. intro es. apply qc_nonzero, lcm_denoms_nonzero. Qed.
 Print Assumptions C16_lcm_factor.
+
+(* Dimension-expression print / parse round trip: printing a closed dimension type (any list of
+   registered base dimensions with any rational exponents) the way signatures are printed
+   (positive factors, `/`, inverted non-positive factors, exponent 1 omitted) and reading the
+   resulting dimension expression back through the registry gives a factor list with the same
+   exponent vector, for every valuation.  (Model at the level of the dimension-expression tree;
+   the character-level printer/tokenizer is the subject of C15 — cf. finding
+   C16-superscript-exponent, which lives exactly in that gap.) *)
+Theorem C16_dexpr_roundtrip :
+  forall (r : registry), reg_tparams r = [] ->
+  forall (l : blist), Forall (registered r) l ->
+    exists d, base_repr r (print_dexpr l) = Ok d /\
+      forall th x, dd th (to_dtype l) x -> dd th d x.
+Proof. exact print_parse_roundtrip. Qed.
+Print Assumptions C16_dexpr_roundtrip.
 
 (* full statement of the remaining clause (not proved; decided per run by the oracle):
    re-checking a function with the signature inferred for it yields the same scheme, up to the
@@ -76,3 +91,11 @@ Example C16_iso_nonvacuous :
   | Err _ => false
   end = true.
 Proof. vm_compute. reflexivity. Qed.
+
+(* the round trip is not vacuous: Length^2 x Mass / Time^(3/2) *)
+Example C16_roundtrip_nonvacuous :
+  let r := mkReg ["Length"; "Time"; "Mass"] [] [] in
+  let l := [("Length", qc 2); ("Mass", qc 1); ("Time", qcf (-3) 2)] in
+  Forall (registered r) l /\
+  print_dexpr l = DDiv (DMul (DPow (DName "Length") (qc 2)) (DName "Mass")) (DPow (DName "Time") (- qcf (-3) 2)%Qc).
+Proof. split; [repeat constructor|vm_compute; reflexivity]. Qed.
